@@ -102,6 +102,20 @@ def gen_layout(rnd):
     return {'mode': mode, 'roles': roles, 'sign': sign, 'dfmt': dfmt, 'fmt': fmt, 'template': template}
 
 
+def date_cell_matches(cell, dfmt):
+    """Does the cell text match the configured strptime format (a trailing day-name suffix is allowed when the format has no blank)?"""
+    c = cell.strip()
+    if not c:
+        return False
+    if ' ' not in dfmt:
+        c = c.split()[0]
+    try:
+        datetime.strptime(c, dfmt)
+        return True
+    except ValueError:
+        return False
+
+
 def gen_rows(rnd, lay, conv, n, short_ok=True):
     """Returns list of {'kind', 'cells': [...], 'exp': expected txn or None}."""
     roles = lay['roles']
@@ -118,9 +132,19 @@ def gen_rows(rnd, lay, conv, n, short_ok=True):
         cells, fields = [''] * ncols, {}
         for j, r in enumerate(roles):
             if r == 'date':
-                cells[j] = dt.strftime(lay['dfmt']) if kind != 'baddate' else rnd.choice(['13/45/2025', '', 'yesterday', '2025-13-01', '31.02.2025', '00/00/0000'])
-                if kind != 'baddate' and rnd.random() < .15:
-                    cells[j] = ' ' + cells[j] + ' '
+                if kind != 'baddate':
+                    cells[j] = dt.strftime(lay['dfmt'])
+                    if rnd.random() < .12 and lay['dfmt'] in ('%m/%d/%Y', '%Y-%m-%d', '%d.%m.%Y', '%m/%d/%y'):
+                        # the same date written without zero padding matches the format too (strptime semantics)
+                        cells[j] = lay['dfmt'].replace('%m', str(dt.month)).replace('%d', str(dt.day)).replace('%Y', str(dt.year)).replace('%y', '%02d' % (dt.year % 100))
+                    if rnd.random() < .15:
+                        cells[j] = ' ' + cells[j] + ' '
+                else:
+                    # cells that do not match THIS format (other spellings of a date included)
+                    bad = [c for c in ['13/45/2025', '', 'yesterday', '2025-13-01', '31.02.2025', '00/00/0000', '20240110', '2024-01-11T08:15:00', '2024-W02-3',
+                                       '2024-01-11+00:00', '2024-011', '01/02/2024', '2024/01/02', '1.2.2024', 'Jan 5, 2024', '2024-02-30']
+                           if not date_cell_matches(c, lay['dfmt'])]
+                    cells[j] = rnd.choice(bad)
             elif r == 'description':
                 cells[j] = desc if kind != 'emptydesc' else rnd.choice(['', '   ', '\t'])
             elif r == 'amount':
@@ -239,8 +263,8 @@ def judge_csv_case(rec, rnd, tmp, t):
     conv = rnd.choice(['.', '.', ','])
     delim = rnd.choice([None, None, ';', '|', 'tab', '\t', ','])
     hdr = rnd.random() < .7
-    if lay['sign'] == '' and rnd.random() < .15:
-        lay['negate_setting'] = True
+    if rnd.random() < .15:
+        lay['negate_setting'] = True          # with {+amount} the absolute value still wins; with {-amount} it is one flip, not two
     rows = gen_rows(rnd, lay, conv, rnd.randint(0, 25))
     src = build_source(lay, conv, delim, hdr, rnd)
     dl = {None: ',', 'tab': '\t'}.get(delim, delim)
@@ -366,7 +390,7 @@ def judge_twin_sources(rec, rnd, tmp):
         hdr = rnd.random() < .5
         lay_i = dict(lay)
         lay_i.pop('negate_setting', None)
-        if lay['sign'] == '' and rnd.random() < .5:
+        if rnd.random() < .5:
             lay_i['negate_setting'] = True
         rows = gen_rows(rnd, lay_i, conv, rnd.randint(2, 8))
         src = build_source(lay_i, conv, delim, hdr, rnd)
